@@ -12,7 +12,7 @@ import (
 func init() {
 	register(&propInfo{
 		id: "C07", fn: checkC07, multiConfig: true,
-		explanation: "Lock-context analysis of every call site of a p9.File method on the server side. The concurrency class of each method is read from the doc comments of the File interface and compared with the property's own table (r0). For every call site the set of locks held on every path is computed (lexical Lock/Unlock regions, wrapper summaries for safelyRead/safelyWrite/safelyGlobal/forEachChild*/removeWithName derived from their bodies, closure inlining, interprocedural entry contexts as the meet over all call sites) and must contain: read class — the path node's opMu (R or W) of the very reference the call is made on plus renameMu:R, or renameMu:W (r1); write class — that node's opMu:W plus renameMu:R, or renameMu:W (r2); UnlinkAt additionally the opMu:W of pathNodeFor(same name) (r3); global class — renameMu:W (r4). r5: the test of ref.opened guarding File.Open and the store ref.opened=true lie in one critical section that is exclusive for that reference. r6: fields documented as protected by opMu/renameMu are accessed only under such a lock or on an unpublished literal. r7: every fidRef literal takes its pathNode from the parent's pathNodeFor(name)/the cloned reference/the server root, never a fresh node. Decides the clause for all interleavings and connections at once, given sync.RWMutex semantics.",
+		explanation: "Lock-context analysis of every call site of a p9.File method on the server side. The concurrency class of each method is read from the doc comments of the File interface and compared with the property's own table (r0). For every call site the set of locks held on every path is computed (lexical Lock/Unlock regions, wrapper summaries for safelyRead/safelyWrite/safelyGlobal/forEachChild*/removeWithName derived from their bodies, closure inlining, interprocedural entry contexts as the meet over all call sites) and must contain: read class — the path node's opMu (R or W) of the very reference the call is made on plus renameMu:R, or renameMu:W (r1); write class — that node's opMu:W plus renameMu:R, or renameMu:W (r2); UnlinkAt additionally the opMu:W of pathNodeFor(same name) (r3); global class — renameMu:W (r4). r5: the test of ref.opened guarding File.Open and the store ref.opened=true lie in one critical section that is exclusive for that reference. r6: fields documented as protected by opMu/renameMu are accessed only under such a lock or on an unpublished literal. r7: every fidRef literal takes its pathNode from the parent's pathNodeFor(name)/the cloned reference/the server root, never a fresh node. Decides the clause for all interleavings and connections at once, given sync.RWMutex semantics. (r8) the lock follows the path: renameChildTo re-attaches the moved path node under the target directory and path nodes are detached/fenced only after the backend removed the entry (the rules of C08.r1/r3), so that a later walk to the same path finds the same node and therefore the same opMu.",
 		assumptions: []string{"one Server per path tree (renameMu instances are identified)", "receiver-expression equality is structural after resolving single-assignment local aliases (no alias analysis is available offline)", "calls on a fresh File not yet reachable through any fid (sf.GetAttr/sf.Close) need no lock"},
 	})
 }
@@ -108,6 +108,15 @@ func checkC07(r *Run) {
 	c07OpenOnce(r, m)
 	c07GuardedFields(r, m)
 	c07PathNodeProvenance(r, m)
+
+	// r8: the lock follows the path.  Two references on one path exclude each other only while
+	// they share one path node: a rename must re-attach the moved node under the target (the
+	// rules of C08.r3), and a node is detached / fenced only when the backend has removed the
+	// entry (C08.r1) - otherwise a new walk to the same path gets a second node and a second
+	// lock.
+	if r.borrowed == nil {
+		r.borrow(checkC08, map[string]string{"r1": "r8", "r3": "r8"})
+	}
 }
 
 func ruleFor(cls string) string {
